@@ -37,6 +37,7 @@ func init() {
 		o = append(o, c.A3("A3")...)
 		return o
 	}}
+	properties["T14"] = &propertyDef{Decides: "debug", Run: func(c *rules.Ctx) []report.Obligation { return c.IMMDerive("IMM") }}
 	properties["C01"] = &propertyDef{
 		Decides:    "no unchecked type assertion on input-derived data in code reachable from the load entry points outside the proved / justified / known set (PANIC-TA)",
 		NotDecided: "termination, stack bounds, nil dereferences, panics inside dependencies",
